@@ -3,6 +3,7 @@ import importlib
 
 # property -> (module, quick runs, thorough runs)
 TABLE = {
+    "C16": ("dsim.c16", 60_000, 6_000_000),
     "C05": ("dsim.c05", 60_000, 3_000_000),
     "C11": ("dsim.c11", 60_000, 6_000_000),
 }
@@ -17,6 +18,13 @@ def budget(prop, tier):
 
 
 MANIFEST_CHECKS = {
+    "C16": {
+        "level": "exploration",
+        "technique": "deterministic simulation: seeded edit histories on live Wav buffers vs a list-of-samples model, with save/open/QueryWav through an in-memory FS seam",
+        "design_ref": "DESIGN.md s4 C16",
+        "text": "Seeded search over histories (<= 6 edits quick, <= 12 thorough) of insert/deleteSegment/replaceSegment/concatenate/getSubwav/getFrames/getSamples/new/duration on 1-3 live Wav objects (widths 1/2/4, six rates, <= 400 samples incl. range extremes), times on and off sample positions; after every step the byte buffer must hold whole samples and decode (independent decoder) to the list model, return values equal the model's; save then Wav.open / QueryWav through SimFS (also over a longer pre-existing file) must give the same samples and parameters. Sampling, not proof.",
+        "note": "Trusted: WavModel (25 lines) and the independent little-endian codec in dsim/c16.py; the real wave/io stack runs on the SimFS raw layer. Times within 0.05 sample of a rounding tie, start > end and times outside [0, duration] are not generated. QueryWav with off-grid times is only held to whole samples from the nearest start, length +-1.",
+    },
     "C05": {
         "level": "exploration",
         "technique": "deterministic simulation: seeded operation/fault histories over a heap of live tiers (incl. save/open through an in-memory FS seam), well-formedness invariant checked after every step",
